@@ -176,7 +176,7 @@ TagService(lx0, svc, rawpath, segs, data, cap, choice, embedded) ==
                  lx2 == IF usecap THEN [lx1 EXCEPT !.capi = @ + 1] ELSE lx1
              IN
              IF start > total THEN SvcR("", MRReply(svc, 255, <<8453>>, <<>>), lx2)
-             ELSE IF usecap /\ (room < 1 \/ room > room0) THEN SvcR("MACHINERY:choice-cap", <<>>, lx2)
+             ELSE IF usecap /\ (room < 0 \/ room > room0) THEN SvcR("MACHINERY:choice-cap", <<>>, lx2)
              ELSE LET got == IF total - start < room THEN total - start ELSE room
                       more == start + got < total
                       chunk == SubSeq(mem, r.off + start + 1, r.off + start + got)
